@@ -212,6 +212,12 @@ def blockCount (count : Int) (r : Bytes) : Outcome (Nat × Bytes) :=
     pure ((if c < 0 then 0 else c.toNat), r')
   else .ok (count.toNat, r)
 
+/-- the block header of `arrayCodec.Read` (array.go:20-44): like `blockCount`, and a count that is
+negative after negation (MinInt64) or that would overflow the slice length is an error -/
+def arrayBlockCount (count : Int) (r : Bytes) (len : Nat) : Outcome (Nat × Bytes) :=
+  (if count < 0 then (rdVarint r).bind fun p => .ok (wrap64 (-count), p.2) else .ok (count, r)).bind fun p =>
+    if p.1 < 0 ∨ p.1 > 2 ^ 63 - 1 - (len : Int) then .err else .ok (p.1.toNat, p.2)
+
 /-- the codec embedded in a `null.*` wrapper codec -/
 def nullInner : NullKind → Codec
   | .int => .int 64 false | .bool => .bool false | .double => .double false
@@ -345,7 +351,7 @@ def readArrayBlocks : Nat → Codec → Bytes → List GoVal → Outcome (List G
   | fuel + 1, item, bs, acc => do
     let (count, r) ← rdVarint bs
     if count = 0 then pure (acc, r) else do
-      let (n, r') ← blockCount count r
+      let (n, r') ← arrayBlockCount count r acc.length
       let (acc', r'') ← readItems fuel item n r' acc
       readArrayBlocks fuel item r'' acc'
 
